@@ -457,7 +457,8 @@ def bound_args(ff: FuncFlow, call: ast.Call) -> Dict[str, ast.AST]:
     pos = list(r.func.positional_params)
     if pos and pos[0] in ('self', 'cls') and isinstance(call.func, ast.Attribute):
       base = ff.repo.resolve(ff.scope_at(call), call.func.value)
-      if base.kind != 'class':
+      is_cm = any(txt(d) == 'classmethod' for d in r.func.node.decorator_list)
+      if base.kind != 'class' or is_cm:
         pos = pos[1:]
     pos = pos[len(r.bound_args):]
     for k, v in (r.bound_kwargs or {}).items():
